@@ -168,6 +168,23 @@ def r07_1(ctx, repo):
         elif not bad:
             ctx.error(rule, '%s: result shape not derived (%r)' % (
                 construct, val))
+        # (1b) the documented matrix layout (n_selected, n_cov) of the
+        # coefficients goes through the same transform
+        for m2 in ('compute_population_parameters', 'compute_sensitivities'):
+            fn2 = repo.method(cls, m2)
+            env2 = _cov_env()
+            env2['parameters'] = Arr([Ax(N_SEL), Ax(N_COV)])
+            lf2 = ShapeLifter(repo, cls)
+            site = '%s.%s[matrix layout]' % (cls, m2)
+            try:
+                v2 = lf2.run(fn2, env2)
+            except Exception as e:
+                ctx.error(rule, '%s: %s' % (site, e))
+                continue
+            if not _emit_events(ctx, rule, repo, cls, fn2, lf2, site):
+                ctx.ok(rule, repo.loc(fn2, cls, m2), site,
+                       'coefficients given as (n_selected, n_cov) are '
+                       'applied like the flat vector', engine=ENG)
         # (2) adjoint
         fn = repo.method(cls, 'compute_sensitivities')
         construct = '%s.compute_sensitivities' % cls
@@ -269,7 +286,7 @@ def r07_1(ctx, repo):
                     'model are laid out (%s); the coefficient vector is '
                     '(n_selected > n_cov): names label the wrong '
                     'coefficients' % nest_str(nest), engine=ENG)
-    ctx.floor(rule, 8)
+    ctx.floor(rule, 10)
 
 
 def _names_selection_axes(ctx, rule, repo, cls):
@@ -870,6 +887,34 @@ def r02_4(ctx, repo):
             ctx.error(rule, '%s.%s: %s' % (cls, m, e))
             continue
         _bottom_top(ctx, rule, repo, cls, fn, val, what, N_TOP)
+    # the unique IDs are the individuals in the order of their blocks
+    fn = repo.method(cls, 'get_id')
+    lf = _HierLifter(repo, cls, flags={'unique': True})
+    env = _hier_env()
+    env['unique'] = True
+    try:
+        val = lf.run(fn, env)
+    except Exception as e:
+        val = None
+        ctx.error(rule, '%s.get_id[unique]: %s' % (cls, e))
+    if val is not None:
+        where = repo.loc(fn, cls, 'get_id')
+        construct = '%s.get_id' % cls
+        if isinstance(val, Arr) and val.ndim == 1 and nest_eq(
+                val.axes[0].nest, ((N_IDS.name, N_IDS),)):
+            ctx.ok(rule, where, construct,
+                   'the unique IDs are listed in the order of the '
+                   'individuals\' parameter blocks', engine=ENG)
+        elif isinstance(val, Arr) and val.ndim == 1:
+            ctx.violation(
+                rule, where, construct, 'unique ids order',
+                'get_id(unique=True) returns %s: the i-th ID no longer '
+                'names the individual whose parameters form block i (the '
+                'inference controllers label per-individual samples with '
+                'this list)' % nest_str(val.axes[0].nest), engine=ENG)
+        else:
+            ctx.error(rule, '%s[unique]: order of the IDs not derived (%r)'
+                      % (construct, val))
     # the posterior publishes the likelihood's names / IDs under every
     # combination of its flags without re-pairing them
     pcls = 'HierarchicalLogPosterior'
